@@ -1,6 +1,7 @@
 package main
 
 import (
+	"math"
 	"fmt"
 	"go/token"
 	"strings"
@@ -153,17 +154,49 @@ func ruleJ2(c *Ctx) {
 	case strCall == nil:
 		c.viol(key, c.P.Pos(root.Instrs[0].Pos()), "the Float arm does not write Float.String()")
 	default:
-		finite := false
-		for _, pc := range pathConds(strCall.Block()) {
-			cv, neg := stripNot(pc.If.Cond)
-			if call, ok := cv.(*ssa.Call); ok && call.Call.StaticCallee() != nil && call.Call.StaticCallee().Name() == "isFinite" && (pc.Branch != neg) {
-				finite = true
+		// the guard, whatever its form (a helper, math.IsNaN/IsInf, a comparison with MaxFloat64), is evaluated
+		// for one representative of every class of float: the write must be reached exactly for the finite ones
+		fv := strCall.Call.Args[0]
+		reps := []float64{0, 1.5, -1.5, math.MaxFloat64, -math.MaxFloat64, math.Inf(1), math.Inf(-1), math.NaN()}
+		bad := ""
+		for _, f := range reps {
+			s := &sinterp{env: map[ssa.Value]sval{fv: svFloat(f)}}
+			s.markInput(fv)
+			blk := root
+			reached, ok := false, true
+			for steps := 0; steps < 60; steps++ {
+				if blk == strCall.Block() {
+					reached = true
+					break
+				}
+				next, ret, ok2 := s.step(blk, 0)
+				if !ok2 {
+					ok = false
+					break
+				}
+				if ret != nil {
+					break
+				}
+				blk = next
+			}
+			want := !math.IsInf(f, 0) && !math.IsNaN(f)
+			if !ok {
+				bad = fmt.Sprintf("the guard of the float write cannot be evaluated for %v", f)
+				break
+			}
+			if reached != want {
+				if reached {
+					bad = fmt.Sprintf("the float %v reaches the write of Float.String(): the output is not JSON", f)
+				} else {
+					bad = fmt.Sprintf("the finite float %v is refused", f)
+				}
+				break
 			}
 		}
-		if finite {
-			c.ok(key, c.P.Pos(strCall.Pos()), "writes Float.String() only on the isFinite edge")
+		if bad == "" {
+			c.ok(key, c.P.Pos(strCall.Pos()), "Float.String() is written exactly for finite values (guard evaluated on 0, +-1.5, +-MaxFloat64, +-Inf, NaN)")
 		} else {
-			c.viol(key, c.P.Pos(strCall.Pos()), "the float is written without a dominating isFinite test: NaN/Inf would be emitted, which is not JSON")
+			c.viol(key, c.P.Pos(strCall.Pos()), bad)
 		}
 	}
 }
